@@ -113,7 +113,10 @@ def mask_completeness(ctx, rep, rule: str) -> None:
         meth = repo.lookup_method(c, routine)
         if meth is None or meth.is_abstract:
             raise AnalysisError(f"{rule}: {c.name}.{routine} not found")
-        masked = sorted(a for (cq, a), t in sp.attr.items() if cq == c.qual and t is not None and t[0] == "list" and t[1] in ("LM", "GM") and a not in ("_local_masked_blocked_grads",))
+        masked = sorted(
+            {a for (cq, a), t in sp.attr.items() if cq == c.qual and t is not None and t[0] == "list" and t[1] in ("LM", "GM")}
+            | {a for (cq, a), sites in sp.attr_sites.items() if cq == c.qual and "masked" in a and sites}
+        )
         reassigned = {}
         for n in _assign_sites(meth.node, lambda tg: isinstance(tg, ast.Attribute) and isinstance(tg.value, ast.Name) and tg.value.id == "self"):
             tg = n.targets[0] if isinstance(n, ast.Assign) else n.target
